@@ -55,7 +55,7 @@ func (f fetcher) FetchSourcePackage(ctx context.Context, st string, u *url.URL, 
 				}
 			}
 		}
-		vars := map[string]string{"T": dir, "A": f.arena, "SIB": sib}
+		vars := map[string]string{"T": dir, "A": f.arena, "SIB": sib, "TB": filepath.Base(dir)}
 		tr := append(fsx.Tree{{Path: "main.tf", Kind: "file", Content: fmt.Sprintf("IN:pkg%d", i), Mode: 0644, Sec: 1500000000}}, p.Tree...)
 		if p.Rules != nil {
 			tr = append(tr, fsx.Node{Path: ".terraformignore", Kind: "file", Content: *p.Rules, Mode: 0644, Sec: 1500000000})
@@ -268,6 +268,9 @@ var hazardNodes = []fsx.Node{
 	{Path: "sub/ln-up-file", Kind: "symlink", Target: "../main.tf"},
 	{Path: "ln-abs-in-pkg", Kind: "symlink", Target: "{T}/main.tf"},
 	{Path: "ln-abs-dir-in-pkg", Kind: "symlink", Target: "{T}/sub"},
+	{Path: "ln-reenter", Kind: "symlink", Target: "../{TB}/main.tf"},
+	{Path: "sub/ln-reenter2", Kind: "symlink", Target: "../../{TB}/sub/keep.txt"},
+	{Path: "ln-reenter-dir", Kind: "symlink", Target: "../{TB}/sub"},
 	{Path: "ln-bundle-root", Kind: "symlink", Target: ".."},
 	{Path: "sub/ln-bundle-root2", Kind: "symlink", Target: "../.."},
 	{Path: "ln-bundle-root-abs", Kind: "symlink", Target: "{T}/.."},
